@@ -199,6 +199,9 @@ class ChunkedFile:
     def flush(self):
         pass
 
+    def __getattr__(self, name):        # encoding, name, mode, ...: those of the real file object
+        return getattr(self.f, name)
+
     def __enter__(self):
         return self
 
